@@ -44,12 +44,14 @@ Proof.
     destruct (fscope s) as [[|]|]; try (inversion St; subst; simpl; auto; fail);
       destruct (scope s) as [[|]|]; try (inversion St; subst; simpl; auto; fail);
       destruct (guard s); inversion St; subst; simpl; auto.
+  - destruct (take id (serves s)) as [[[] r]|]; try discriminate. inversion St; subst; simpl; auto.
   - destruct (take id (serves s)) as [[[] r]|]; try discriminate. simpl in St.
     destruct (scope s) as [[|]|]; inversion St; subst; simpl; auto.
   - destruct (take id (serves s)) as [[[] r]|]; try discriminate.
     destruct (scope s) as [[|]|]; try discriminate. inversion St; subst. simpl. destruct (stask s); simpl; auto.
   - destruct (take id (serves s)) as [[[] r]|]; try discriminate.
     destruct (stask s); try discriminate; destruct (dying s); try discriminate; inversion St; subst; simpl; auto.
+  - destruct (take id (serves s)) as [[[] r]|]; try discriminate. inversion St; subst; simpl; auto.
   - destruct (stask s); try discriminate. inversion St; subst. rewrite closed_detach. simpl; auto.
   - destruct (dying s); try discriminate. inversion St; subst. rewrite closed_detach. simpl; auto.
   - destruct (cwait s); try discriminate. destruct (closer s); try discriminate.
@@ -166,15 +168,16 @@ Proof.
     exists (LWake id). split; [reflexivity|]. simpl. rewrite Hs, take_head, Hp. discriminate.
   - destruct (stask s) eqn:T.
     + destruct (dying s) eqn:D.
-      * exists (LServeExit id). split; [reflexivity|]. simpl. rewrite Hs, take_head, T, D. discriminate.
+      * exists (LChildrenDone id). split; [reflexivity|]. simpl. rewrite Hs, take_head, T, D. discriminate.
       * exists LClientGone. split; [reflexivity|]. simpl. rewrite D. discriminate.
     + exfalso. destruct (ev s) eqn:E.
       * destruct (i_idle s I E) as (A&_). congruence.
       * destruct (i_run s I E) as (e&A&B&_). rewrite Hs in A. inversion A; subst. unfold serve_ok in B. simpl in B. tauto.
     + exists LTaskDone. split; [reflexivity|]. simpl. rewrite T. discriminate.
     + destruct (dying s) eqn:D.
-      * exists (LServeExit id). split; [reflexivity|]. simpl. rewrite Hs, take_head, T, D. discriminate.
+      * exists (LChildrenDone id). split; [reflexivity|]. simpl. rewrite Hs, take_head, T, D. discriminate.
       * exists LClientGone. split; [reflexivity|]. simpl. rewrite D. discriminate.
+  - exists (LServeExit id). split; [reflexivity|]. simpl. rewrite Hs, take_head. discriminate.
 Qed.
 
 Lemma no_deadlock_l s : reachable s -> busy s -> exists l, internal l /\ step s l <> None.
@@ -235,7 +238,7 @@ Proof.
 Qed.
 
 Definition udp_crash_trace : list label :=
-  [LCallServe; LFactoryDone 0; LInitDone 0; LUdpQueue; LCallShutdown; LWake 0; LTaskDone; LServeExit 0; LShutdownWake 1].
+  [LCallServe; LFactoryDone 0; LInitDone 0; LUdpQueue; LCallShutdown; LWake 0; LTaskDone; LChildrenDone 0; LServeExit 0; LShutdownWake 1].
 
 Lemma udp_crash_witness :
   Gen.ParamsC18.udp_restart_guarded = false ->
@@ -271,13 +274,16 @@ Proof.
     destruct (fscope s) as [[|]|]; try (inversion St; subst; simpl in Hin; intuition congruence; fail);
       destruct (scope s) as [[|]|]; try (inversion St; subst; simpl in Hin; intuition congruence; fail);
       destruct (guard s); inversion St; subst; simpl in Hin; intuition congruence.
+  - destruct (take id (serves s)) as [[[] r]|]; try discriminate. inversion St; subst; simpl in Hin; intuition congruence.
   - destruct (take id (serves s)) as [[[] r]|]; try discriminate. simpl in St.
     destruct (scope s) as [[|]|]; inversion St; subst; simpl in Hin; intuition congruence.
   - destruct (take id (serves s)) as [[[] r]|]; try discriminate.
     destruct (scope s) as [[|]|]; try discriminate. inversion St; subst. simpl in Hin; tauto.
   - destruct (take id (serves s)) as [[[] r]|]; try discriminate.
+    destruct (stask s); try discriminate; destruct (dying s); try discriminate; inversion St; subst; simpl in Hin; tauto.
+  - destruct (take id (serves s)) as [[[] r]|]; try discriminate.
     destruct (Gen.ParamsC18.udp_restart_guarded) eqn:G; [|reflexivity]. rewrite andb_false_r in St.
-    destruct (stask s); try discriminate; destruct (dying s); try discriminate; inversion St; subst; simpl in Hin; intuition congruence.
+    inversion St; subst; simpl in Hin; intuition congruence.
   - destruct (stask s); try discriminate. inversion St; subst. simpl in Hin; tauto.
   - destruct (dying s); try discriminate. inversion St; subst. simpl in Hin; tauto.
   - destruct (cwait s); try discriminate. destruct (closer s); try discriminate.
